@@ -326,10 +326,14 @@ def run_spectrum(ctx, rng, idx):
         if fz.changed():
             ctx.violation('ensemble.mutates-input', '%s' % fz.changed())
         ob = rng.random(n)
-        _, o2 = synth.synthetic_ensemble(Tin, p0, steps,
-                                         observable_per_state=ob)
+        p2, o2 = synth.synthetic_ensemble(Tin, p0, steps,
+                                          observable_per_state=ob)
         if np.abs(np.asarray(o2) - exp @ ob).max() > 1e-12:
             ctx.violation('ensemble.observable-wrong', 'observable trace')
+        if np.abs(np.asarray(p2) - exp[-1]).max() > 1e-12:
+            ctx.violation('ensemble.observable-final-populations',
+                          'with observable_per_state the returned final '
+                          'populations are not p0 T^(n_steps-1) (as without)')
     except Exception as e:  # noqa
         ctx.crash('ensemble.raised', e)
     if has_complex or has_neg:
